@@ -124,9 +124,14 @@ class Case:
 def run_three(ctx: Ctx, cases: list[Case]):
     import time
     t0 = time.time()
-    model = [parse_model_line(l) for l in ctx.lean_driver("Driver/C01.lean", [c.lean for c in cases])]
-    if len(model) != len(cases):
-        raise ToolFailure(f"driver returned {len(model)} lines for {len(cases)} programs")
+    todo = [c for c in cases if getattr(c, "model", None) is None]
+    if todo:
+        lines = ctx.lean_driver("Driver/C01.lean", [c.lean for c in todo])
+        if len(lines) != len(todo):
+            raise ToolFailure(f"driver returned {len(lines)} lines for {len(todo)} programs")
+        for c, l in zip(todo, lines):
+            c.model = parse_model_line(l)
+    model = [c.model for c in cases]
     t1 = time.time()
     mres = R.check_batch({c.name: c.src for c in cases})
     t2 = time.time()
@@ -269,11 +274,31 @@ def search_nearby(ctx: Ctx, case: Case, m: dict, my: dict, diffs: list[str], str
 
 # ------------------------------------------------------------------------------------------- streams
 def model_stream(ctx: Ctx, n: int) -> list[Case]:
+    """n generated programs inside the fragment `tc` transcribes: candidates that `tc` itself classifies as outside
+    (ad-hoc intersections, unreachable right operands, …) are counted and replaced (at most 3 rounds)."""
     g = G.Gen(ctx.rng)
-    cases = []
-    for i in range(n):
-        p, calls = g.program()
-        cases.append(Case(f"m{i}", p, calls, "generated"))
+    cases: list[Case] = []
+    serial = 0
+    for _round in range(4):
+        need = n - len(cases)
+        if need <= 0:
+            break
+        cand = []
+        for _ in range(need + need // 3 + 2):
+            p, calls = g.program()
+            cand.append(Case(f"m{serial}", p, calls, "generated"))
+            serial += 1
+        lines = ctx.lean_driver("Driver/C01.lean", [c.lean for c in cand])
+        if len(lines) != len(cand):
+            raise ToolFailure(f"driver returned {len(lines)} lines for {len(cand)} programs")
+        for c, l in zip(cand, lines):
+            c.model = parse_model_line(l)
+            kind = c.model["tc"].split(" ")[0]
+            if kind in ("unsupported", "fuel") and _round < 3:
+                ctx.dist("generated_outside_fragment", c.model["tc"])
+                continue
+            if len(cases) < n:
+                cases.append(c)
     for k, v in sorted(g.stats.items()):
         ctx.dist("constructs", k, v)
     for i in range(0, len(cases), BATCH):
